@@ -82,18 +82,40 @@ class G:
             a.update(uses=IRQ, key=key, outputs={n: None})
             self.rules.append({'match': {'key': key}, 'action': 'next', 'options': {n: t, other: t2}})
             self.write(scope, n, t)          # `other` is cut away by the declared outputs
+        elif k == 'W6':
+            # an act with declared outputs ended by skip: the options are cut down to the declared outputs all the same
+            ns = self.names(scope)
+            n = self.r.choice(ns)
+            other = self.r.choice([x for x in ns if x != n])
+            t, t2 = self.newtag(), self.newtag()
+            key = 'w' + a['id']
+            a.update(uses=IRQ, key=key, outputs={n: None})
+            self.rules.append({'match': {'key': key}, 'action': 'skip', 'options': {n: t, other: t2}})
+            self.write(scope, n, t)
+        elif k == 'W7':
+            n = self.r.choice(self.names(scope))
+            a.update(uses='acts.transform.code', params=f'$set("{n}", null);')
+            self.write(scope, n, None)
+        elif k == 'W8':
+            n = self.r.choice(self.names(scope))
+            a.update(uses='acts.transform.set', params={n: None})
+            self.write(scope, n, None)
         elif k in ('R1', 'R4'):
             n = self.r.choice(self.names(scope, foreign=True) + ['__priv'])
             p = 'p' + str(len(self.probes))
             expr = f'(typeof {n} === "undefined" ? "undef" : {n})' if k == 'R1' else f'($get("{n}") === null || $get("{n}") === undefined ? "undef" : $get("{n}"))'
             a.update(uses='acts.transform.code', params=f'$set("{p}", {expr});')
-            self.probes.append((p, k, n, self.lookup(scope, n) if n != '__priv' else 'undef'))
+            v = self.lookup(scope, n) if n != '__priv' else 'undef'
+            if v is None and k == 'R4':
+                v = 'undef'          # the $get probe maps null and undefined to "undef"
+            self.probes.append((p, k, n, v))
         elif k == 'R2':
             n = self.r.choice(self.names(scope))
             key = 'r' + a['id']
             a.update(uses=IRQ, key=key, inputs={'v': '{{ ' + n + ' }}'})
             self.rules.append({'match': {'key': key}, 'action': 'next'})
-            self.expect_msgs[key] = self.lookup(scope, n)
+            v = self.lookup(scope, n)
+            self.expect_msgs[key] = 'undef' if v is None else v
         return a
 
     def step(self, kinds):
@@ -107,6 +129,8 @@ class G:
         if 'R3' in self.readers and self.r.random() < 0.3:
             n = self.r.choice(self.names(None))
             cur = self.lookup(None, n)
+            if cur is None:
+                cur = 'null'
             ok = self.r.random() < 0.5
             st['if'] = f'{n} == {cur if ok else 999}'
             self.expect_steps[sid] = ok
@@ -129,7 +153,7 @@ class G:
 
 class DataFamily:
     name = 'data'
-    WRITERS = ['W1', 'W2', 'W3', 'W4', 'W5']
+    WRITERS = ['W1', 'W2', 'W3', 'W4', 'W5', 'W6', 'W7', 'W8']
 
     def gen(self, rng, idx, opts):
         readers = opts.get('readers', ['R1', 'R2', 'R3', 'R4'])
@@ -159,8 +183,9 @@ class DataFamily:
             obs[f'c07.reads:{k}'] += 1
             gv = o.get(pn)
             if gv != expv:
-                scope = 'private-key' if name == '__priv' else 'foreign-scope' if expv == 'undef' else 'root' if name in m['root'] else 'step-local'
-                out.append(V('C07', 'read-your-writes', f"{ {'R1': 'script-global', 'R4': '$get'}[k]}:{scope}:{'stale' if isinstance(gv, int) and isinstance(expv, int) and gv < expv else 'leak' if expv == 'undef' else 'other'}:{race}",
+                scope = 'private-key' if name == '__priv' else 'root' if name in m['root'] else 'foreign-scope' if expv == 'undef' else 'step-local'
+                kind_ = 'stale' if isinstance(gv, int) and scope in ('root', 'step-local') and (not isinstance(expv, int) or gv < expv) else 'leak' if expv == 'undef' else 'other'
+                out.append(V('C07', 'read-your-writes', f"{ {'R1': 'script-global', 'R4': '$get'}[k]}:{scope}:{kind_}:{race}",
                              f"reader {k} of {name}: saw {gv!r}, the reference environment says {expv!r}", scenario=sid))
         for key, expv in m['msgs'].items():
             obs['c07.reads:R2'] += 1
